@@ -139,6 +139,8 @@ def canonicalise_fields(doc):
         if isinstance(o, dict):
             if "proj" in o and "l" in o:
                 fix_place(o)
+            if o.get("k") == "agg" and o.get("adt") in renamed and isinstance(o.get("fnames"), list):
+                o["fnames"] = [renamed[o["adt"]].get(x, x) for x in o["fnames"]]
             for v in o.values():
                 walk(v)
         elif isinstance(o, list):
